@@ -23,40 +23,62 @@ CFG = {
     "theory_files": ["theories/Geom/AlgebraInst.v", "theories/Geom/AlgebraMatProofs.v",
                      "theories/Geom/AlgebraMatInvProofs.v", "theories/Geom/AlgebraQuatProofs.v",
                      "theories/Geom/AlgebraQuatRProofs.v", "theories/Geom/AlgebraTrsProofs.v", "theories/Geom/AlgebraArrayProofs.v",
-                     "theories/Geom/AlgebraAabbProofs.v"],
+                     "theories/Geom/AlgebraAabbProofs.v", "theories/Geom/AlgebraMoreProofs.v"],
     "level_text": "Coq theorems about Gallina definitions GENERATED from the Go sources on every run (tools/go2coq, one "
                   "definition per Go function, generic in the scalar type): Matrix4x4 Add entry-wise, Multiply "
-                  "row-by-column, associativity, identity, Inverse (both sides, = adjugate/det), Determinant = Laplace "
-                  "expansion and multiplicative, MulPosition; quaternion Multiply = Hamilton product, Rotate = sandwich "
-                  "product, length law, composition, linearity; TRS = R(S*v)+T — all over every commutative ring / field, "
-                  "axiom-free; RotationTo (generic, antiparallel incl. the x axis, parallel branches), FromTheta, AABB "
-                  "Contains / Encapsulate* / ClosestPoint over the reals.  The translation is validated on every run: the "
-                  "generated code evaluated over Q (vm_compute) must equal the Go result exactly on integer/dyadic inputs "
-                  "(all 16x16 basis-matrix pairs for Add/Multiply) and within 1e-9 relative on floats, and the laws are "
-                  "re-evaluated in exact rational arithmetic on the implementation's own outputs",
+                  "row-by-column, bilinear, associative, identity, Inverse (both sides, = adjugate/det, unique, involutive, "
+                  "(ab)^-1 = b^-1 a^-1, undoes MulPosition of an affine matrix), Determinant = Laplace expansion and "
+                  "multiplicative, MulPosition, MatFromDirs frame; quaternion Multiply = Hamilton product (associative, unit, "
+                  "multiplicative norm), Rotate = sandwich product, length law, composition, linearity, conjugate undoes it; "
+                  "TRS = R(S*v)+T, constructors, Translate; array-level entry points = map of the scalar one, distribute "
+                  "over concatenation — all over every commutative ring / field, axiom-free; RotationTo (generic, "
+                  "antiparallel incl. the x axis, parallel branches; unit in every branch, hence an isometry), Normalize, "
+                  "FromTheta, AABB Contains / Encapsulate* (exact bounds, unchanged for contained points) / ClosestPoint / "
+                  "Intersects / Expand / Size / Volume, NewAABBFromPoints (hand model) over the reals.  The translation is "
+                  "validated on every run: the generated code evaluated over Q (vm_compute) must equal the Go result "
+                  "exactly on integer/dyadic inputs (all 16x16 basis-matrix pairs for Add/Multiply; operands next to the "
+                  "neutral elements: rotations by 2^-6..2^-24, translations 2^-40, scales 1+-2^-30 and 2^+-40; matrices "
+                  "with bottom row (0,0,0,w), diagonal, triangular, permutation, rows/columns scaled by 2^+-40) and within "
+                  "1e-9 relative on floats (1e-13 for unit quaternions of tiny angle), and the laws are re-evaluated in "
+                  "exact rational arithmetic on the implementation's own outputs",
     "level_note": "Trusted: Coq kernel + vm_compute; the translator tools/go2coq and the hand-written vector prelude "
                   "Geom/Vec.v (EliCDavis/vector methods) — both exercised by the exact differential on every run; "
-                  "stdlib real-number axioms under the RotationTo/FromTheta/AABB theorems; IEEE rounding is not modelled "
-                  "(real/rational semantics; float64 compared exactly where it is exact, else with tolerance); mesh-level "
-                  "Rotate/Translate/Scale/ApplyTRS are loops (not translated): modelled as map and tied by correspondence",
+                  "stdlib real-number axioms under the RotationTo/FromTheta/Normalize/AABB theorems; IEEE rounding is not "
+                  "modelled (real/rational semantics; float64 compared exactly where it is exact, else with tolerance); "
+                  "Mesh.Rotate/Translate/Scale (loops over a struct of maps) and NewAABBFromPoints (variadic fold with Inf "
+                  "sentinels) are outside the translator's subset: hand-written models (map / fold) tied by correspondence; "
+                  "Quaternion.ToArr, AABB JSON methods and IntersectsRayInRange are not modelled (ToArr is compared in Go)",
     "technique": "translation Go -> Gallina + Coq proof (ring/field identities, real analysis) + vm_compute differential",
     "design_ref": "DESIGN.md §4 C17",
-    "n_quick": 300, "n_thorough": 6000,
+    "n_quick": 260, "n_thorough": 6000,
     "rule": "fixed: all 256 pairs of basis matrices E_ij,E_kl through Add+Multiply, identity plus one off-diagonal entry "
-            "at each of the 16 positions through Determinant/Inverse/MulPosition, RotationTo on all 36 pairs of signed "
-            "coordinate axes, the 16 pairs of quaternion units; generated (10 kinds in rotation, 2/3 exact integer/dyadic, "
-            "1/3 floats): sparse and dense integer matrices, matrices with determinant +-2^k (exact Inverse), integer and "
-            "float matrices with tolerance Inverse, integer / unit / arbitrary quaternions (Multiply, Rotate, composition), "
-            "RotationTo on random unit vectors (generic, exactly parallel, exactly antiparallel, antiparallel along axes), "
-            "FromTheta with unit and non-unit axes, TRS triples, meshes of 1-6 vertices through Rotate/Translate/Scale/"
-            "ApplyTRS, boxes (incl. empty and inside-out) grown by points and boxes with corner/centre/random probes, "
-            "ClosestPoint with queries inside and outside; distinct by input; non-trivial = non-zero, non-identity operands",
+            "(2 and 2^-30) at each of the 16 positions through Determinant/Inverse/MulPosition, RotationTo on all 36 pairs "
+            "of signed coordinate axes and around every numeric threshold of the translated code, the 16 pairs of "
+            "quaternion units; the near-neutral / structured stream (harness/cmd/c17/neutral.go): quaternions (a*2^-k, +-1) "
+            "through Rotate, Multiply (either side), TRS, constructors and the four mesh operations, unit quaternions of "
+            "angle 1e-2..1e-8, translations 2^-40, scales 1+-2^-30 / 2^+-40, matrices with bottom row (0,0,0,w) "
+            "(w = 2,-1,1/2,3,4,2^+-40), diagonal / translation-only / triangular / signed-permutation / I+2^-30 N / "
+            "power-of-two scaled rows and columns / -0 entries, boxes grown by points 2^-30 outside or inside a face and "
+            "at 2^40, nearly-unit Normalize inputs, denormal components; Min/Max/Size/Volume/Intersects/Expand and "
+            "MatFromDirs; generated (13 kinds in rotation, 2/3 exact integer/dyadic, 1/3 floats): sparse and dense "
+            "integer matrices, determinant +-2^k matrices (exact Inverse), float matrices with tolerance Inverse, integer / "
+            "unit / arbitrary quaternions, RotationTo on random unit vectors (generic, exactly (anti)parallel, around "
+            "thresholds), FromTheta with unit / non-unit / nearly-unit axes, TRS triples, meshes of 1-6 vertices through "
+            "Rotate/Translate/Scale/ApplyTRS, array-level entry points on 2^k+-3 .. 70000 points with several GOMAXPROCS, "
+            "boxes (incl. empty, inside-out, zero-extent, tiny) grown by points and boxes with corner/centre/random probes, "
+            "ClosestPoint, NewAABBFromPoints, and a random draw from the structured stream; every kind is also judged by "
+            "a float64 reference oracle inside the harness (works when the translation fails); distinct by input; "
+            "non-trivial = non-zero, non-identity operands",
     "trusted": ["tools/go2coq (Go subset -> Gallina) and Geom/Vec.v (transcription of the vector2/3/4 methods used)",
                 "float64 -> exact rational conversion of every observed number is done by the harness (math.Frexp)",
-                "tolerances (1e-9 x magnitude) for the float stream are computed by the harness and applied in Coq"],
+                "tolerances (1e-9 x magnitude; 1e-13 on the tiny-angle stream) for the float stream are computed by the harness and applied in Coq",
+                "harness-side float64 reference oracles (oracle.go: entry-wise sums, row-by-column sums, Leibniz determinant, "
+                "Hamilton / sandwich product, R(S*v)+T, interval membership) with tolerance 1e-12 (exact stream) / 1e-9 x sum of |terms|"],
     "modelled": ["IEEE-754 rounding is not modelled: theorems are over rings/fields/R, executions over Q",
                  "math.Sqrt/Sin/Cos/Pi over Q are 160-bit / 40-term approximations (tolerance cases only)",
-                 "modeling.Mesh.Rotate/Translate/Scale/ApplyTRS: hand-written model (map over Position), correspondence only"],
+                 "modeling.Mesh.Rotate/Translate/Scale: hand-written model (map over Position), correspondence only; "
+                 "Mesh.ApplyTRS's Position array is the generated TransformArray",
+                 "geometry.NewAABBFromPoints: hand-written fold model (AlgebraSpec.box_from_points) ending in the generated NewAABB"],
 }
 
 
